@@ -188,6 +188,38 @@ theorem c20_last_group_can_exceed :
     (distributeStep (10 : ℚ) (some 2) [((3 : ℚ), 1, (1 : ℚ))] 1).2 = 8 := by
   simp [distributeStep]; norm_num
 
+/-! ### iteration history: the previous sweep feeds the next distribution -/
+
+/-- mixed-mean outlet temperature of a sweep: flows `m`, outlet temperatures `T` (all assemblies, all time steps) -/
+def mixedMean (rows : List (K × K)) : K := (rows.map fun r => r.1 * r.2).sum / (rows.map fun r => r.1).sum
+
+/-- heat carried off by a sweep relative to the inlet temperature, per unit heat capacity -/
+theorem mixedMean_heat (rows : List (K × K)) (Tin : K) (hm : (rows.map fun r => r.1).sum ≠ 0) :
+    (rows.map fun r => r.1).sum * (mixedMean rows - Tin) = (rows.map fun r => r.1 * (r.2 - Tin)).sum := by
+  unfold mixedMean
+  have h1 : ∀ l : List (K × K), (l.map fun r => r.1 * (r.2 - Tin)).sum
+      = (l.map fun r => r.1 * r.2).sum - (l.map fun r => r.1).sum * Tin := by
+    intro l
+    induction l with
+    | nil => simp
+    | cons r t ih => simp only [List.map_cons, List.sum_cons, ih]; ring
+  rw [h1 rows]
+  field_simp
+
+/-- **The rescaled total is the flow the target needs**: with the mixed-mean outlet temperature of the previous sweep (over
+ALL its rows), the total `M₁ (T_prev - T_in) / (T_target - T_in)` carries the same heat to the target temperature -/
+theorem c20_history_total (rows : List (K × K)) (Tin Ttgt : K) (hm : (rows.map fun r => r.1).sum ≠ 0) (ht : Ttgt ≠ Tin) :
+    ((rows.map fun r => r.1).sum * (mixedMean rows - Tin) / (Ttgt - Tin)) * (Ttgt - Tin)
+      = (rows.map fun r => r.1 * (r.2 - Tin)).sum := by
+  rw [← mixedMean_heat rows Tin hm]
+  have : Ttgt - Tin ≠ 0 := sub_ne_zero.mpr ht
+  field_simp
+
+/-- taking the mean over the rows of the LAST time step only gives another total as soon as the time steps differ -/
+theorem c20_history_last_step_counter :
+    mixedMean [((1 : ℚ), 700), (1, 800)] ≠ mixedMean [((1 : ℚ), 800)] := by
+  unfold mixedMean; norm_num
+
 /-- Non-vacuity / the silent loss of a group in the original `_group`: four equal parameters,
 two groups requested: the original final test accepts one group, the corrected test reports failure. -/
 example : sweepGroups ((1 : ℚ) / 20) [5, 5, 5, 5] = [[5, 5, 5, 5]] := by
